@@ -389,7 +389,7 @@ REFINED = [
     "fmt/power_two: PreparedWord/Dword (shift+mask), PreparedLarge (bit slicing across word boundaries on the word list) = digits",
     "InRadixWriter::format_prepared = pad_integral specification (all flags, widths, alignments)",
     "parse/mod.rs grammar (sign, prefix, leading zeros), non_power_two parse_word/parse_chunk/parse_large_divide_conquer, "
-    "power_two parse_word/parse_large (bit packing with word wrap) = documented grammar on every byte string outside the underscore-only class",
+    "power_two parse_word/parse_large (bit packing with word wrap) = documented grammar on every byte string",
     "convert.rs to_le_bytes/to_signed_le_bytes/from_le_bytes/from_signed_le_bytes (+BE mirror images), to_chunks, from_chunks: see LEVEL_TEXT for what is proved",
 ]
 FRONTIER = [
@@ -419,6 +419,6 @@ LEVEL_TEXT = ("Machine-checked Lean 4 theorems about an executable model of dash
               "comparison of all flag combinations with Rust's primitive integer formatting.")
 LEVEL_NOTE = ("Trusted: Lean kernel; axioms propext/Classical.choice/Quot.sound; the correspondence harness and generators (sampling) "
               "for the tie model<->code; division/multiplication kernels used inside the converters are exact arithmetic in the model "
-              "(frontier, see evidence); fixed-size scratch arrays are unbounded lists in the model. Five recorded defects of dashu "
-              "(known_findings.jsonl) are excluded by explicit hypotheses that are the same predicates as the finding matchers.")
+              "(frontier, see evidence); fixed-size scratch arrays are unbounded lists in the model. Five defects found by this check "
+              "were repaired in /repo (`fixed:` lines of known_findings.jsonl); model and theorems describe the repaired code.")
 TECHNIQUE = "Lean 4 refinement proofs (positional-representation algebra, induction over digit/word lists, all W) + differential correspondence model vs real code + comparison with Rust primitive formatting"
